@@ -113,11 +113,38 @@ def run_c14(chk):
 
 # ------------------------------------------------------------------------------------------- C09
 
+def min_effective_priority(p):
+    """the lowest priority any task of the project has: its own, else the nearest enclosing container's, else 500"""
+    nodes = {fid: t for fid, t, _, _ in A.flat_tasks(p)}
+    lo = 1000
+    for fid, t, par, _ in A.flat_tasks(p):
+        x, v = fid, None
+        while x is not None and v is None:
+            v = nodes[x].get("prio")
+            x = x.rsplit(".", 1)[0] if "." in x else None
+        lo = min(lo, 500 if v is None else v)
+    return lo
+
+
+def outer_priorities_only(p, rng):
+    """every task gets its priority from its outermost container (or has its own when it is a top-level task): 700..900"""
+    q = copy.deepcopy(p)
+    for fid, t, par, _ in A.flat_tasks(q):
+        if par is None:
+            t["prio"] = rng.choice([700, 800, 900])
+        else:
+            t.pop("prio", None)
+    return q
+
+
 def add_lowest(p, rng):
     q = copy.deepcopy(p)
     ids = [r["id"] for _, r, _ in A.flat_resources(q) if A.is_leaf(r) and not r.get("children")]
     ft = A.flat_tasks(q)
-    t = {"id": "zlow", "prio": 1, "effort": gen.gen_effort(rng, q.get("G", 3600), Knobs()), "alloc": [rng.choice(ids)]}
+    # strictly below every other task's (own or inherited) priority: 1, or anything below the minimum
+    lo = min_effective_priority(q)
+    prio = 1 if (lo <= 2 or rng.random() < 0.4) else rng.randint(max(1, lo - 250), lo - 1)
+    t = {"id": "zlow", "prio": prio, "effort": gen.gen_effort(rng, q.get("G", 3600), Knobs()), "alloc": [rng.choice(ids)]}
     if rng.random() < 0.3 and ft and q.get("sched") != "alap":
         tgt = rng.choice(ft)[0]
         t["deps"] = [{"target": tgt, "ref": tgt}]
@@ -136,8 +163,10 @@ def run_c09(chk):
     n = 250 if tier == "quick" else 5000
     k = Knobs(envelope="asap", max_res=2, p_dep=0.6, p_container=0.45, p_limits=0.3, dur_weeks=[3, 4])
     asts = [gen.gen_project(chk.rng, k) for _ in range(n)]
-    for p in asts:      # priorities of the base project are > 1; a missing priority is 500
-        pass
+    # a family with three nesting levels whose priorities all come from the outermost container (700..900): the added task's
+    # priority then lies between the default 500 and those
+    k2 = Knobs(envelope="asap", max_res=2, max_tasks=7, p_dep=0.4, p_container=0.9, p_inner=0.85, p_limits=0.1, dur_weeks=[3, 4])
+    asts += [outer_priorities_only(gen.gen_project(chk.rng, k2), chk.rng) for _ in range(n // 5)]
     base = project_stream.run_projects(chk, asts, want_oracles=())
     dis = [{"stream": "project", "text": r["text"], "ast": r["ast"], "diffs": r["diffs"][:6]} for r in base if r["diffs"] and not r["skipped"]]
     plus = [add_lowest(p, chk.rng) for p in asts]
